@@ -300,7 +300,16 @@ pub fn silence_panics() {
         let r = shuttle::Runner::new(shuttle::scheduler::RoundRobinScheduler::new(1), cfg);
         r.run(|| {});
     });
-    std::panic::set_hook(Box::new(|_| {}));
+    if std::env::var("VERIF_STDERR").map(|v| v == "keep").unwrap_or(false) {
+        std::panic::set_hook(Box::new(|info| {
+            eprintln!("PANIC: {info}");
+            if std::env::var("VERIF_BACKTRACE").is_ok() {
+                eprintln!("{}", std::backtrace::Backtrace::force_capture());
+            }
+        }));
+    } else {
+        std::panic::set_hook(Box::new(|_| {}));
+    }
 }
 
 pub fn panic_message(p: &Box<dyn std::any::Any + Send>) -> String {
